@@ -1,13 +1,15 @@
 #!/bin/bash
 # tools/seeded_all.sh <ID>...: confirm the two changes of each property in its scratch worktree,
 # then run the property's check against each and append the outcome to seeded/RESULTS.txt
+# OFFSET (env) is added to the change number when it is stored (round 2: OFFSET=2)
 cd "$(dirname "$0")/.."
 for id in "$@"; do
   for n in 1 2; do
+    dn=$((n + ${OFFSET:-0}))
     [ -d /tmp/wt/$id/SEEDED/$n ] || { echo "no $id/$n"; continue; }
-    c=$(tools/confirm_seeded.sh $id $n 2>&1 | tail -3); echo "$c"
-    case "$c" in *": ok"*) ;; *) echo "$id/$n NOT-CONFIRMED: $c" >> seeded/RESULTS.txt; continue;; esac
-    r=$(tools/seeded.sh seeded/$id/$n quick 2>&1); echo "$r" | head -8
+    c=$(tools/confirm_seeded.sh $id $n $dn 2>&1 | tail -3); echo "$c"
+    case "$c" in *": ok"*) ;; *) echo "$id/$dn NOT-CONFIRMED: $c" >> seeded/RESULTS.txt; continue;; esac
+    r=$(tools/seeded.sh seeded/$id/$dn quick 2>&1); echo "$r" | head -8
     echo "$r" | grep '^seeded=' >> seeded/RESULTS.txt
   done
 done
